@@ -137,12 +137,9 @@ def run(ctx: Ctx) -> None:
     ctx.bounds = {"classes": len(classes), "sizes": N_QUICK if ctx.quick else N_THOROUGH, "path_length": 2}
     step = 24
     ctx.pmap(_worker, [(ctx.tier, lo, min(lo + step, len(classes))) for lo in range(0, len(classes), step)])
-    try:
-        from mc.checks import c09g
+    from mc.checks import c09g
 
-        c09g.run_g(ctx, "c10")
-    except ImportError:
-        pass
+    c09g.run_g(ctx, "c10")
 
 
 def replay(acc: Acc, payload: dict) -> None:
